@@ -3,17 +3,18 @@ package csr
 //vsym:pkg github.com/theparanoids/ysshra/csr
 //vsym:entry H14_forcecommand
 //vsym:entry H14_newreqparam
+//vsym:entry H14_transid_sequence
 //vsym:model encoding/json.Unmarshal m14JSONUnmarshal
 //vsym:model net.ParseIP m14ParseIP
 //vsym:model crypto/rand.Read m14RandRead
 //vsym:replay same-harness
-//vsym:expect-cover C14.fc.ok C14.fc.too-few C14.fc.too-many C14.fc.bad-policy C14.ok-json C14.ok-legacy C14.err-message C14.err-logname C14.err-ip C14.err-version C14.default-version C14.json-null
+//vsym:expect-cover C14.fc.ok C14.fc.too-few C14.fc.too-many C14.fc.bad-policy C14.ok-json C14.ok-legacy C14.err-message C14.err-logname C14.err-ip C14.err-version C14.default-version C14.json-null C14.sequence
 //vsym:bound H14_forcecommand: 0..8 tokens spread over the argument vector in three ways (one per argument, all in one argument, first two joined); the second-to-last token 4 symbolic non-space bytes (NONS, NSOK or anything else), the others 1 symbolic non-space byte
 //vsym:bound H14_newreqparam: SSH_ORIGINAL_COMMAND either JSON (decoder outcome: arbitrary attributes with 0..3- or 7-byte symbolic version, 0..1-byte user/host; or null) or legacy text built from 0..2 tokens (req, SSHClientVersion, HardKey, a 1-byte symbolic key) with 0- or 3-byte symbolic values; LOGNAME 0..2 symbolic bytes; SSH_CONNECTION 0..2 fields of 1 symbolic byte; argv from {3 valid tokens, split tokens, too few, bad policy}; the message shapes and the environment shapes are swept one factor at a time (NewReqParam reads them independently)
+//vsym:bound H14_transid_sequence: 14 (thorough 40) accepted requests in one process; every id must be the hex of 5 consecutive crypto/rand bytes no earlier id consumed (randomness may be drawn in larger portions)
 //vsym:assume encoding/json is modelled by its contract (see C15); net.ParseIP is an uninterpreted predicate of its argument; crypto/rand.Read yields arbitrary bytes; the regexp ^\d+\.\d+$ is decided by a byte-class encoding
 
 import (
-	"bytes"
 	crand "crypto/rand"
 	"encoding/json"
 	"errors"
@@ -29,9 +30,24 @@ var m14JSONOutcome int // 0 invalid, 1 null, 2 object
 var m14Obj *message.Attributes
 var m14IPValid bool
 var m14IPArg string
-var m14Rand [][]byte
+var m14Stream []byte // every byte crypto/rand delivered so far, in order
+var m14Used []bool   // ... and whether a transaction id already consumed it
+
+type h14Reader struct{}
+
+// natively crypto/rand.Reader is replaced by this reader, which delivers the
+// counterexample's bytes exactly as the model's crypto/rand.Read does
+func (h14Reader) Read(b []byte) (int, error) { return m14RandRead(b) }
 
 func m14JSONUnmarshal(data []byte, v any) error {
+	// a decoding hook on the destination type is honoured as encoding/json does
+	if u, ok := v.(json.Unmarshaler); ok {
+		return u.UnmarshalJSON(data)
+	}
+	// inside such a hook the destination is usually a method-less twin type
+	if w := vRetype(v, (*message.Attributes)(nil)); w != nil {
+		v = w
+	}
 	var p *message.Attributes
 	pp, isPP := v.(**message.Attributes)
 	if isPP {
@@ -65,7 +81,8 @@ func m14ParseIP(s string) net.IP {
 func m14RandRead(b []byte) (int, error) {
 	fresh := vNondetBytes("rand", len(b))
 	copy(b, fresh)
-	m14Rand = append(m14Rand, fresh)
+	m14Stream = append(m14Stream, fresh...)
+	m14Used = append(m14Used, make([]bool, len(fresh))...)
 	return len(b), nil
 }
 
@@ -256,12 +273,9 @@ func H14_newreqparam() {
 		}
 		return ""
 	}
-	rand0 := len(m14Rand)
 	if vIsNative() {
-		// the transaction id's random bytes: natively crypto/rand.Reader is
-		// replaced by a reader delivering the counterexample's bytes
 		saved := crand.Reader
-		crand.Reader = bytes.NewReader(append(vNondetBytes("rand", 5), make([]byte, 64)...))
+		crand.Reader = h14Reader{}
 		defer func() { crand.Reader = saved }()
 	}
 	var p *ReqParam
@@ -321,25 +335,8 @@ func H14_newreqparam() {
 			vAssert(p.SSHClientVersion == version.New(uint16(maj), uint16(min)), "C14.version-equals-the-declared-one")
 		}
 	}
-	// transaction id: fresh 10 hex digits from this call's randomness
-	vAssert(len(p.TransID) == 10, "C14.transaction-id-has-10-characters")
-	if !vIsNative() {
-		vAssert(len(m14Rand) == rand0+1 && len(m14Rand[rand0]) == 5, "C14.transaction-id-from-5-fresh-random-bytes")
-		if len(m14Rand) == rand0+1 && len(p.TransID) == 10 {
-			r := m14Rand[rand0]
-			ok := true
-			for i := 0; i < 5; i++ {
-				hi, lo := r[i]>>4, r[i]&15
-				ok = vAnd(ok, vAnd(p.TransID[2*i] == h14Hex(hi), p.TransID[2*i+1] == h14Hex(lo)))
-			}
-			vAssert(ok, "C14.transaction-id-is-the-hex-of-the-random-bytes")
-		}
-	} else {
-		for i := 0; i < len(p.TransID); i++ {
-			c := p.TransID[i]
-			vAssert((c >= '0' && c <= '9') || (c >= 'a' && c <= 'f'), "C14.transaction-id-is-hex")
-		}
-	}
+	// transaction id: 10 hex digits of 5 random bytes no earlier id used
+	h14FreshTransID(p.TransID)
 	if kind == 0 {
 		vReach("C14.ok-json")
 	} else {
@@ -354,6 +351,87 @@ func h14Decimal(s string) uint32 {
 		v = v*10 + uint32(s[i]-'0')
 	}
 	return v
+}
+
+// h14FreshTransID: the id is the lower-case hex of 5 consecutive bytes that
+// crypto/rand delivered and that no earlier id consumed (an implementation
+// may draw its randomness in larger portions).
+func h14FreshTransID(id string) {
+	vAssert(len(id) == 10, "C14.transaction-id-has-10-characters")
+	if len(id) != 10 {
+		return
+	}
+	window := func(a int) bool {
+		ok := true
+		for i := 0; i < 5; i++ {
+			r := m14Stream[a+i]
+			ok = vAnd(ok, vAnd(id[2*i] == h14Hex(r>>4), id[2*i+1] == h14Hex(r&15)))
+		}
+		return ok
+	}
+	unused := func(a int) bool {
+		for i := 0; i < 5; i++ {
+			if m14Used[a+i] {
+				return false
+			}
+		}
+		return true
+	}
+	some := false
+	for a := 0; a+5 <= len(m14Stream); a++ {
+		if unused(a) {
+			some = vOr(some, window(a))
+		}
+	}
+	vAssert(some, "C14.transaction-id-is-the-hex-of-5-unused-random-bytes")
+	for a := 0; a+5 <= len(m14Stream); a++ {
+		if unused(a) && vProvable(window(a)) {
+			for i := 0; i < 5; i++ {
+				m14Used[a+i] = true
+			}
+			return
+		}
+	}
+}
+
+// H14_transid_sequence: many requests in one process, every id fresh.
+func H14_transid_sequence() {
+	n := 14
+	if vThorough() {
+		n = 40
+	}
+	m14JSONOutcome = 0 // legacy text
+	m14IPValid = true
+	env := func(k string) string {
+		switch k {
+		case "SSH_ORIGINAL_COMMAND":
+			return "req=u@h SSHClientVersion=8.1"
+		case "LOGNAME":
+			return "u"
+		case "SSH_CONNECTION":
+			return "1.2.3.4 22"
+		}
+		return ""
+	}
+	if vIsNative() {
+		saved := crand.Reader
+		crand.Reader = h14Reader{}
+		defer func() { crand.Reader = saved }()
+	}
+	for i := 0; i < n; i++ {
+		var p *ReqParam
+		var err error
+		crashed := vCatch(func() {
+			p, err = NewReqParam(env, func() []string { return []string{"/usr/bin/gensign", "NONS", "regular"} })
+		})
+		vAssert(!crashed, "C14.newreqparam-never-crashes")
+		vAssert(!crashed && err == nil && p != nil, "C14.sequence-every-request-accepted")
+		if crashed || err != nil || p == nil {
+			return
+		}
+		h14FreshTransID(p.TransID)
+	}
+	vReach("C14.sequence")
 }
 
 func h14Hex(n byte) byte {
